@@ -92,6 +92,11 @@ def gen_cases(rng, tier, escalate=False):
             peers = 3
             script, stats = seq16gen.gen_join_template(rng, peers=peers)
         cases.append(_case(script, peers, stats, init=0, explore={"max_paths": paths // 2, "max_len": 60}, how="explore-par"))
+    # a `new` scope left through a failure that an outer xor catches
+    for _ in range(max(6, n_small // 3)):
+        script, stats = seq16gen.gen_scope_template(rng, peers=3)
+        cases.append(_case(script, 3, stats, init=rng.randrange(3), ops=fifo(), drain=True, how="fifo"))
+        cases.append(_case(script, 3, stats, init=rng.randrange(3), ops=seq16gen.gen_schedule(rng, n_ops=16), drain=True, how="random+drain"))
     return cases
 
 
